@@ -289,3 +289,21 @@ P("C01",
   units=[
    U("c01.integrity", "c01", "TestIntegrity", "only hash-verified data reaches storage / stats / have messages / resume data", Q(160, 8, 900), T(6000, 16), min_nontrivial_frac=0.5, shrinktime="40s"),
   ])
+
+P("C04",
+  level_text="Bounded random exploration at session level with a model-based history: 3..18 commands (start, stop, stop-and-wait, verify, verify-and-wait, announce, add peer, add tracker, "
+             "stats, peers, sleeps, wait-for-seeding) interleaved with external file mutations at points where the torrent reports Stopped (corrupt a byte, truncate, delete one file, "
+             "delete all), against a real session on in-memory storage whose Open / ReadAt / WriteAt are slowed by generated delays (the harness stretches allocation, verification and "
+             "writes so that commands land inside them), an honest scripted seeder and a scripted tracker that holds the 'stopped' announce for a generated time. Oracle after every op: "
+             "every call returns within 10 s; Seeding only with all pieces and a storage image equal to F; Stopped only with no peers, no downloads and no open data files; completed bytes "
+             "consistent with the pieces held; stop-and-wait reaches Stopped within the tracker stop timeout + 2 s; verify-and-wait ends Stopped with exactly the correct pieces marked; the last of "
+             "start/stop/verify decides the end state (a start is never dropped); a final start with the seed reachable converges to complete, correct files; the child never dies.",
+  level_note="Trusted: " + SESSION_TRUST + ". File corruption or truncation behind the client's back cannot be noticed without a verification: after such a mutation the 'image equals F' "
+             "clause is suspended until a verification has completed (the client re-checks missing files itself, which is asserted). A start issued while a verification is still running is not "
+             "asserted either way. Goroutine scheduling inside the client is not controlled.",
+  technique="property-based testing (rapid) at system level: model-based stateful testing of the lifecycle with harness-owned storage timing",
+  rule="non-trivial = >= 3 lifecycle commands (start/stop/verify) in the history; distinct = distinct history",
+  assumptions=["external mutations are applied only while Stats() reports Stopped"],
+  units=[
+   U("c04.lifecycle", "c04", "TestLifecycle", "lifecycle safety and truthful status over generated command/mutation histories", Q(128, 16, 900), T(5000, 16), min_nontrivial_frac=0.3, shrinktime="90s"),
+  ])
